@@ -91,6 +91,16 @@ def check_tools(ctx):
         for ev in find_calls(bi, callee):
             call_ok_dominates(ctx, "T10-lock-pairing", "backup_inner:locked:" + callee, bi, ev, "ldb_lock_file",
                               "copying into the backup directory")
+    # the destination must be a directory this call created: an existing one may hold another database
+    # (or be the source itself) and the failure cleanup below removes database files from it
+    cd = need_call(ctx, "T2-backup-fresh-dir", "mkdir", bi, "ldb_create_dir", "the backup directory is created by the backup")
+    if cd:
+        ctx.check(argkey(cd[0][2], 0) == "bakname", "T2-backup-fresh-dir", "mkdir-arg", bi.name, site(bi, cd[0][2]),
+                  "the destination directory is created", "ldb_create_dir called on %s" % argkey(cd[0][2], 0))
+        for callee in ("ldb_lock_file", "ldb_copy_file", "ldb_link_file", "ldb_remove_file", "ldb_remove_dir"):
+            for ev in find_calls(bi, callee):
+                call_ok_dominates(ctx, "T2-backup-fresh-dir", "%s@%s" % (callee, ev[2]["l"].split(":")[1]), bi, ev, "ldb_create_dir",
+                                  "%s in the backup directory" % callee)
     # only the backup directory is cleaned after a failure
     for b, i, e in find_calls(bi, "ldb_remove_file"):
         ctx.check(argkey(e, 0) in ("dst", "lockname"), "T5-backup-nondestructive", "remove@%s" % e["l"].split(":")[1],
